@@ -33,12 +33,16 @@ pub open spec fn scan(s: Seq<char>, i: nat, p: spec_fn(char) -> bool) -> nat
 {
     if i < s.len() && p(s[i as int]) { scan(s, i + 1, p) } else { i }
 }
+/// (conditional form, no `requires`: used as a proof hint, it can never fail by itself - if the run is not what the reference
+/// says, the NAMED postcondition of the scanning function fails instead)
+pub open spec fn is_run(s: Seq<char>, i: nat, j: nat, p: spec_fn(char) -> bool) -> bool {
+    i <= j <= s.len() && (forall|k: int| i <= k < j ==> p(#[trigger] s[k])) && (j < s.len() ==> !p(s[j as int]))
+}
 pub proof fn lemma_scan_unique(s: Seq<char>, i: nat, j: nat, p: spec_fn(char) -> bool)
-    requires i <= j <= s.len(), forall|k: int| i <= k < j ==> p(#[trigger] s[k]), j < s.len() ==> !p(s[j as int])
-    ensures scan(s, i, p) == j
+    ensures is_run(s, i, j, p) ==> scan(s, i, p) == j
     decreases j - i
 {
-    if i < j { lemma_scan_unique(s, i + 1, j, p); }
+    if is_run(s, i, j, p) && i < j { assert(is_run(s, i + 1, j, p)); lemma_scan_unique(s, i + 1, j, p); }
 }
 pub proof fn lemma_scan_props(s: Seq<char>, i: nat, p: spec_fn(char) -> bool)
     requires i <= s.len()
@@ -61,14 +65,16 @@ pub open spec fn find2(s: Seq<char>, i: nat, a: char, b: char) -> nat
 {
     if i >= s.len() { s.len() } else if s[i as int] == a && i + 1 < s.len() && s[(i + 1) as int] == b { i } else { find2(s, i + 1, a, b) }
 }
+pub open spec fn is_first2(s: Seq<char>, i: nat, j: nat, a: char, b: char) -> bool {
+    i <= j <= s.len()
+    && (forall|k: int| i <= k < j ==> !(#[trigger] s[k] == a && k + 1 < s.len() && s[k + 1] == b))
+    && (j < s.len() ==> s[j as int] == a && j + 1 < s.len() && s[(j + 1) as int] == b)
+}
 pub proof fn lemma_find2_unique(s: Seq<char>, i: nat, j: nat, a: char, b: char)
-    requires i <= j <= s.len(),
-        forall|k: int| i <= k < j ==> !(#[trigger] s[k] == a && k + 1 < s.len() && s[k + 1] == b),
-        j < s.len() ==> s[j as int] == a && j + 1 < s.len() && s[(j + 1) as int] == b
-    ensures find2(s, i, a, b) == j
+    ensures is_first2(s, i, j, a, b) ==> find2(s, i, a, b) == j
     decreases j - i
 {
-    if i < j { lemma_find2_unique(s, i + 1, j, a, b); }
+    if is_first2(s, i, j, a, b) && i < j { assert(is_first2(s, i + 1, j, a, b)); lemma_find2_unique(s, i + 1, j, a, b); }
 }
 
 // ---------------------------------------------------------------- keyword and bang-operator tables (ProgRef)
